@@ -121,6 +121,11 @@ fn widened_windows(rounds: u8, p0_us: u16, p1_us: u16, out: &mut Outcome) {
         out.fail(sig, what);
         return;
     }
+    // and the same file notified twice around the load of its asset, behind queued requests
+    if let Some((sig, what)) = super::c07::notified_twice_behind_queued_requests() {
+        out.fail(sig, what);
+        return;
+    }
     out.label("widened-reloader-windows");
 }
 
